@@ -187,6 +187,36 @@ pub fn exec_action(w: &Rc<World>, a: &Action) {
             let n = if *proj == 0 { input.map_ref(|p: &Pair| &p.0) } else { input.map_ref(|p: &Pair| &p.1) };
             w.register(NodeH::I(n), RK::MapRef { src: s, proj: *proj }, None, true, all_clean(w, &[s]), hb);
         }
+        Action::NewZipQ { a, b } => {
+            let (Some(x), Some(y)) = (w.pick(Pool::P, *a), w.pick(Pool::I, *b)) else { return skipped(w, "no node") };
+            let hb = hb_of(w, &[x, y]) + 1;
+            if !fits(w, hb) { return skipped(w, "height") }
+            let n = incr_p(w, x).unwrap().zip(&incr_i(w, y).unwrap());
+            // zip of two (valid) constants is itself a constant node
+            let rk = {
+                let nodes = w.nodes.borrow();
+                let m = w.model.borrow();
+                let live = !m.nodes[x].invalid && !m.nodes[y].invalid;
+                let kb = match &nodes[y].rk {
+                    RK::Const(MV::I(b)) => Some(*b),
+                    RK::BConst(b) => Some(*b),
+                    _ => None,
+                };
+                match (&nodes[x].rk, kb) {
+                    (RK::Const(MV::P(a1, a2)), Some(b)) if live => RK::Const(MV::Q(*a1, *a2, b)),
+                    _ => RK::ZipQ { a: x, b: y },
+                }
+            };
+            w.register(NodeH::Q(n), rk, None, true, all_clean(w, &[x, y]), hb);
+        }
+        Action::NewMapRefQ { src } => {
+            let Some(s) = w.pick(Pool::Q, *src) else { return skipped(w, "no node") };
+            let hb = hb_of(w, &[s]) + 1;
+            if !fits(w, hb) { return skipped(w, "height") }
+            let Some(NodeH::Q(input)) = w.node_h(s) else { return skipped(w, "no node") };
+            let n = input.map_ref(|t: &Trip| &t.0);
+            w.register(NodeH::P(n), RK::MapRefQ { src: s }, None, true, all_clean(w, &[s]), hb);
+        }
         Action::NewMapWithOld { src, f } => {
             let Some(s) = w.pick(Pool::I, *src) else { return skipped(w, "no node") };
             let hb = hb_of(w, &[s]) + 1;
@@ -204,6 +234,7 @@ pub fn exec_action(w: &Rc<World>, a: &Action) {
             let n = match w.node_h(y).unwrap() {
                 NodeH::I(yi) => xi.depend_on(&yi),
                 NodeH::P(yp) => xi.depend_on(&yp),
+                NodeH::Q(yq) => xi.depend_on(&yq),
             };
             w.register(NodeH::I(n), RK::DependOn { a: x, b: y }, None, true, all_clean(w, &[x, y]), hb);
         }
@@ -239,6 +270,7 @@ pub fn exec_action(w: &Rc<World>, a: &Action) {
             match w.node_h(h).unwrap() {
                 NodeH::I(n) => n.on_update(make_node_handler::<i64>(w, nh)),
                 NodeH::P(n) => n.on_update(make_node_handler::<Pair>(w, nh)),
+                NodeH::Q(n) => n.on_update(make_node_handler::<Trip>(w, nh)),
             }
             act(w, Act::OnUpdate { hid: h, nh });
         }
@@ -382,12 +414,15 @@ pub fn do_stabilise(w: &Rc<World>) {
     st.stabilise();
     w.in_stabilise.set(false);
     w.log(Ev::RoundEnd { round });
+    let alive: Vec<Hid> = w.nodes.borrow().iter().enumerate().filter(|(_, n)| n.weak.strong_count() > 0).map(|(i, _)| i).collect();
+    w.log(Ev::Alive { hids: alive });
 }
 
 pub fn do_set_cutoff(w: &Rc<World>, h: Hid, c: CutoffSpec) {
     match w.node_h(h).unwrap() {
         NodeH::I(n) => n.set_cutoff(make_cutoff::<i64>(w, h, c)),
         NodeH::P(n) => n.set_cutoff(make_cutoff::<Pair>(w, h, c)),
+        NodeH::Q(n) => n.set_cutoff(make_cutoff::<Trip>(w, h, c)),
     }
     act(w, Act::SetCutoff { hid: h, c });
 }
@@ -440,6 +475,7 @@ pub fn do_observe(w: &Rc<World>, pool: Pool, idx: usize) {
     let o = match w.node_h(hid).unwrap() {
         NodeH::I(n) => ObsH::I(n.observe()),
         NodeH::P(n) => ObsH::P(n.observe()),
+        NodeH::Q(n) => ObsH::Q(n.observe()),
     };
     let mut obs = w.obs.borrow_mut();
     obs.push(ObsEntry { hid, clones: vec![Some(o)] });
@@ -484,6 +520,7 @@ pub fn do_subscribe(w: &Rc<World>, oid: usize, h: HandlerSpec) {
         match obs[oid].clones[c].as_ref().unwrap() {
             ObsH::I(o) => o.try_subscribe(make_handler::<i64>(w, sid, oid, h)),
             ObsH::P(o) => o.try_subscribe(make_handler::<Pair>(w, sid, oid, h)),
+            ObsH::Q(o) => o.try_subscribe(make_handler::<Trip>(w, sid, oid, h)),
         }
     };
     match res {
